@@ -3,6 +3,8 @@
 package driver
 
 import (
+	"regexp"
+
 	"github.com/google/pprof/profile"
 )
 
@@ -162,4 +164,60 @@ func VerifC06ApplyFocus() {
 		vAssert(ok, "C06.applyfocus.tags: the tags left on a kept sample are not exactly those selected by tagshow/taghide")
 	}
 	vObserve(len(p.Sample))
+}
+
+func init() { vRegister("VerifC11ApplyPruneFrom", VerifC11ApplyPruneFrom) }
+
+// VerifC11ApplyPruneFrom (property C11): the prune_from option removes, through
+// applyFocus, exactly what Profile.PruneFrom removes for the same expression -
+// for names that need simplification before they match (C++ signatures,
+// templates, a leading dot) as well.
+func VerifC11ApplyPruneFrom() {
+	names := []string{"worker(int, int)", ".worker", "ns::worker<T>(T*)", "worker", "other"}
+	exprs := []string{"^worker$", "^worker", "worker", "^ns::worker$", "nomatch"}
+	mid := names[vChoice("name", vBound("c11.names", len(names)))]
+	expr := exprs[vChoice("expr", vBound("c11.exprs", len(exprs)))]
+	build := func() *profile.Profile {
+		m := &profile.Mapping{ID: 1, Start: 0x1000, Limit: 0x9000, File: "bin", HasFunctions: true}
+		var fs []*profile.Function
+		var ls []*profile.Location
+		for i, n := range []string{"main", mid, "leaf1", "leaf2"} {
+			f := &profile.Function{ID: uint64(i + 1), Name: n, SystemName: n, Filename: "f.cc"}
+			fs = append(fs, f)
+			ls = append(ls, &profile.Location{ID: uint64(i + 1), Mapping: m, Address: uint64(0x1000 + 16*i), Line: []profile.Line{{Function: f, Line: 1}}})
+		}
+		return &profile.Profile{
+			SampleType: []*profile.ValueType{{Type: "samples", Unit: "count"}}, PeriodType: &profile.ValueType{Type: "cpu", Unit: "ns"}, Period: 1,
+			Mapping: []*profile.Mapping{m}, Function: fs, Location: ls,
+			Sample: []*profile.Sample{
+				{Location: []*profile.Location{ls[3], ls[2], ls[1], ls[0]}, Value: []int64{1}},
+				{Location: []*profile.Location{ls[2], ls[0]}, Value: []int64{2}},
+			},
+		}
+	}
+	p, ref := build(), build()
+	err := applyFocus(p, nil, config{PruneFrom: expr}, &vNullUI{})
+	vReach("C11.applyprunefrom:returned")
+	if err != nil {
+		vAssert(false, "C11.applyprunefrom.error: a valid prune_from expression was rejected")
+		return
+	}
+	ref.PruneFrom(regexp.MustCompile(expr))
+	same := len(p.Sample) == len(ref.Sample)
+	if same {
+		for i := range p.Sample {
+			a, b := p.Sample[i].Location, ref.Sample[i].Location
+			if len(a) != len(b) {
+				same = false
+				break
+			}
+			for j := range a {
+				if a[j].ID != b[j].ID || len(a[j].Line) != len(b[j].Line) {
+					same = false
+				}
+			}
+		}
+	}
+	vAssert(same, "C11.applyprunefrom.differs: the prune_from option does not remove exactly the frames Profile.PruneFrom removes for the expression")
+	vObserve(len(p.Sample[0].Location))
 }
